@@ -168,6 +168,7 @@ def compile_digest(compiler) -> dict:
     except Exception as e:
         d["source_map"] = f"<unreadable: {type(e).__name__}>"
     d["imports"] = list(getattr(compiler, "imports", []) or [])
+    d["macro_resolution_order"] = list(getattr(compiler, "macro_resolution_order", []) or [])
     macros = getattr(compiler, "macros", None) or {}
     try:
         d["macros"] = sorted(
